@@ -93,6 +93,10 @@ def norm(t, depth=0):
         if e[0] == "f" and e[1] == 0 and a[0].op == "bin" and a[0].args[0].endswith("WithOverflow"):
             o, x, y, ty = a[0].args   # value component of a checked primitive operation (the overflow flag is asserted separately)
             return norm(Term("bin", o[: -len("WithOverflow")], x, y, ty), d)
+        if e[0] == "f" and e[1] == 1 and a[0].op == "call" and a[0].args[0] == "[T]::split_at" and len(a[0].args[2]) == 2:
+            # s.split_at(k).1 is s[k..] (where it exists; the precondition k <= len is the panic census's obligation)
+            return norm(Term("payload", Term("call", "[T]::get", ("u8", "ops::RangeFrom<usize>"),
+                                               (a[0].args[2][0], Term("agg", "adt", "ops::RangeFrom", 0, "RangeFrom", (a[0].args[2][1],)))), "Some"), d)
         if e[0] == "f":
             base = norm(a[0], d)
             if base[0] == "agg" and isinstance(e[1], int) and e[1] < len(base[3]) and (e[2] is None or "closure" not in str(base[1])):
@@ -189,6 +193,10 @@ def norm(t, depth=0):
             # reversing the bytes of the little-endian reading is the big-endian reading (and vice versa)
             other = "from_be_bytes" if args[0].args[0].endswith("from_le_bytes") else "from_le_bytes"
             return ("call", m_.group(1) + "::" + other, tuple(norm(x, d) for x in args[0].args[2]))
+        if f.endswith("::saturating_sub") and len(args) == 2 and args[1].op == "bin" and args[1].args[0] == "Rem" and args[1].args[2] is args[0] \
+                and f.split("::")[0] in ("u8", "u16", "u32", "u64", "usize"):
+            # a.saturating_sub(x % a): the remainder is below a (a != 0, or the remainder itself traps), so this is the plain difference
+            return ("-", norm(args[0], d), norm(args[1], d))
         return ("call", f, tuple(norm(x, d) for x in args))
     if op == "discr":
         return ("discr", norm(a[0], d))
